@@ -115,12 +115,12 @@ fn month_lines(ctx: &Ctx, tag: &str, ranges: Vec<(i64, i64)>) -> usize {
 }
 
 pub fn run(ctx: &Ctx) -> usize {
-  let wins = day_windows(ctx, 201, 30, 300, 2);
+  let wins = day_windows(ctx, 201, 200, 300, 2);
   let a = walk_days(ctx, "Trace_C02", wins, line);
   let ranges: Vec<(i64, i64)> = if ctx.quick() {
     let mut v: Vec<(i64, i64)> = vec![(0, 3), (7, 26), (235, 241), (1644, 1646), (1959, 1962), (2019, 2026), (7999, 8002), (9996, 9999)];
     let mut rng = ctx.rng(202);
-    for _ in 0..25 {
+    for _ in 0..150 {
       let a = rng.range(27, 9990);
       v.push((a, a + 3));
     }
